@@ -547,7 +547,67 @@ theorem C08_sequential_spec_any_history (n : Nat) (hn : 0 < n) (ops : List HOp) 
   have h := specInv_runH hn ops hops (init n) (specInit (64 * n)).tbl 0 (specInv_init n hn)
   exact ⟨h, by rw [seqMonH_eq]; exact h⟩
 
+/-! ### the capacity belongs to the protocol version -/
+
+/-- for EVERY protocol version the generator `New(protocol)` builds (`wordsOfProto` words) has exactly the capacity
+    the property prescribes (`specCap`: 128 ids for v1-2, 32768 ids for v3+, written from the property text):
+    `NumStreams`, and `Available()` of the fresh generator = 127 / 32767. -/
+theorem C08_capacity_by_protocol (proto : Nat) :
+    0 < wordsOfProto proto ∧ (init (wordsOfProto proto)).numStreams = specCap proto ∧
+    available (init (wordsOfProto proto)) = ((specCap proto - 1 : Nat) : Int) ∧
+    (proto ≤ 2 → specCap proto = 128) ∧ (2 < proto → specCap proto = 32768) := by
+  have hlen : ∀ n, (init n).words.length = n := length_init
+  have hns : ∀ n, (init n).numStreams = 64 * n := fun n => by simp only [Shared.numStreams, hlen]
+  have hav : ∀ n, available (init n) = ((64 * n : Nat) : Int) - 0 - 1 := fun n => by
+    simp only [available, hlen]; rfl
+  rw [hns, hav]
+  by_cases h : proto ≤ 2
+  · have h' : ¬ proto > 2 := by omega
+    simp only [wordsOfProto, specCap, h, h', ↓reduceIte]
+    refine ⟨by decide, by decide, by decide, ?_, ?_⟩ <;> intros <;> first | trivial | omega
+  · have h' : proto > 2 := by omega
+    simp only [wordsOfProto, specCap, h, h', ↓reduceIte]
+    refine ⟨by decide, by decide, by decide, ?_, ?_⟩ <;> intros <;> first | trivial | omega
+
+/-- ∀ protocol version, ∀ schedule (client protocol): every id handed out is in 1..127 for v1-2 and in 1..32767 for
+    v3+ — the range of the PROTOCOL VERSION, not of whatever bitset the generator happens to have. -/
+theorem C08_range_by_protocol (proto k : Nat) (s : State) (h : Reachable (wordsOfProto proto) k s) :
+    (∀ id, id ∈ s.held → 1 ≤ id ∧ id < specCap proto ∧ (proto ≤ 2 → id ≤ 127) ∧ (2 < proto → id ≤ 32767)) ∧
+    (∀ a s' id, legal s a = true → step s a = some (s', some (.stream id true)) →
+        1 ≤ id ∧ id < specCap proto ∧ (proto ≤ 2 → id ≤ 127) ∧ (2 < proto → id ≤ 32767)) := by
+  obtain ⟨hn, hcap, _, h1, h2⟩ := C08_capacity_by_protocol proto
+  have hc : 64 * wordsOfProto proto = specCap proto := by
+    rw [← hcap]; simp only [Shared.numStreams, length_init]
+  obtain ⟨_, hheld, hstep⟩ := C08_reserved_and_range (wordsOfProto proto) k hn s h
+  refine ⟨fun id hid => ?_, fun a s' id hl hs => ?_⟩
+  · have := hheld id hid
+    refine ⟨this.1, by omega, fun hp => ?_, fun hp => ?_⟩
+    · have := h1 hp; omega
+    · have := h2 hp; omega
+  · have := (hstep a s' id true hl hs).1 rfl
+    refine ⟨this.1, by omega, fun hp => ?_, fun hp => ?_⟩
+    · have := h1 hp; omega
+    · have := h2 hp; omega
+
+/-- sequential use, ALL histories (offset presets included), EVERY protocol version: the model of `New(protocol)`
+    satisfies the abstract id-set specification instantiated with the capacity of the protocol version
+    (`specCap`). This is what the driver runs for `smon <proto> …` lines; the harness judges the real code by the
+    same specification with the same, protocol-given capacity. -/
+theorem C08_sequential_spec_by_protocol (proto : Nat) (ops : List HOp) (hops : HOp.op (.clear 0) ∉ ops) :
+    specCheck (specCap proto) (specInit (specCap proto)) (hTrace (init (wordsOfProto proto)) ops) = true ∧
+    seqMonH (specCap proto) (init (wordsOfProto proto)) (specInit (specCap proto)).tbl 0 ops = true := by
+  obtain ⟨hn, hcap, _⟩ := C08_capacity_by_protocol proto
+  have hc : 64 * wordsOfProto proto = specCap proto := by
+    rw [← hcap]; simp only [Shared.numStreams, length_init]
+  rw [← hc]
+  exact C08_sequential_spec_any_history (wordsOfProto proto) hn ops hops
+
 /-! ### non-vacuity -/
+
+/-- the capacities: protocol 2 is the last small one, protocol 3 the first large one; the specification with the
+    capacity of protocol 2 rejects an id above 127 -/
+example : specCap 2 = 128 ∧ specCap 3 = 32768 ∧ wordsOfProto 2 = 2 ∧ wordsOfProto 3 = 512 ∧
+    specCheck (specCap 2) (specInit (specCap 2)) [(.get, some (.stream 128 true), 126)] = false := by decide
 
 /-- the scan across the wrap of the offset word: offset = 2^32-1, two words: the scan starts at word 0 -/
 example : scanPos32 2 4294967295 0 = 0 ∧ scanPos32 2 4294967295 1 = 1 ∧
